@@ -39,6 +39,16 @@ def gen(seed, tier):
     # half of the plans: the bests are also *read* after every generation of every deme, as a user-defined stop
     # condition may do (looking must not change what is reported later)
     pl["c04_midreads"] = (seed // 7) % 2 == 0
+    if "stacks" in pl and seed % 9 == 0:
+        # evaluation caches on; an earlier tree of this process ran the same seeds on another objective
+        import copy as _c
+
+        for st in pl["stacks"]:
+            st["use_cache"] = True
+        o2 = _c.deepcopy(pl["objective"])
+        o2["offset"] = o2.get("offset", 0.0) - 50.0 if not pl["maximize"] else o2.get("offset", 0.0) + 50.0
+        pl["preceded_by"] = [{"objective": o2, "faults": {}}]
+        pl["uses_cache"] = True
     return pl
 
 
@@ -52,6 +62,7 @@ class C04Monitor(Monitor):
         self.n_b = 0
         self.inv_seen = 0
         self.level_obs = {}  # level -> best observed value
+        self.level_vals = {}  # level -> set of observed values
 
     def _absorb_calls(self):
         w = self.w
@@ -59,6 +70,7 @@ class C04Monitor(Monitor):
             if d_ord < 0:
                 continue
             lvl = w.deme_list[d_ord].obj._level
+            self.level_vals.setdefault(lvl, set()).add(v)
             cur = self.level_obs.get(lvl)
             if cur is None or strictly_better(v, cur, self.maximize):
                 self.level_obs[lvl] = v
@@ -126,6 +138,13 @@ class C04Monitor(Monitor):
                         if lb is None or strictly_better(i.fitness, lb, mx):
                             lb = i.fitness
             w.probe("c04-level-best-vs-observed")
+            if lb is not None and strictly_better(lb, obs, mx) and abs(lb) != float("inf"):
+                # the reported best must be a value the objective really returned in this run; it may stem from
+                # a parent's individual (a seed kept as it is): look at the levels above as well
+                seen = any(lb in self.level_vals.get(l2, ()) for l2 in range(li + 1))
+                if not seen:
+                    self.violate("level-best-never-observed/" + type(lv[0]).__name__,
+                                 {"level": li, "best_in_histories": float(lb), "best_observed": float(obs), "where": where})
             if lb is None or strictly_better(obs, lb, mx):
                 self.violate("level-best-lost/" + type(lv[0]).__name__,
                              {"level": li, "best_in_histories": None if lb is None else float(lb),
